@@ -16,25 +16,25 @@ ROOT = cf.ROOT
 
 # which suites decide which property, per tier
 PLAN = {
-    "C01": {"quick": ["struct3", "struct4s", "struct3z", "struct3p", "seg13z", "prims3", "primseg"],
-            "thorough": ["struct3", "struct4s", "struct3c", "struct3z", "struct3p", "struct4", "seg13", "seg13z", "seg22", "seg3d", "feat13",
+    "C01": {"quick": ["struct3", "struct4s", "struct5s", "struct3z", "struct3p", "seg13z", "prims3", "primseg", "seg6s"],
+            "thorough": ["struct3", "struct4s", "struct5s", "struct3c", "struct3z", "struct3p", "struct4", "seg13", "seg13z", "seg22", "seg3d", "feat13",
                          "prims3", "primseg"]},
-    "C03": {"quick": ["struct3", "struct4s"], "thorough": ["struct3", "struct4s", "struct4", "seg13"]},
-    "C04": {"quick": ["struct3", "struct4s"], "thorough": ["struct3", "struct4s", "struct4", "seg13"]},
-    "C05": {"quick": ["struct3", "struct4s"], "thorough": ["struct3", "struct4s", "struct4", "seg13"]},
-    "C06": {"quick": ["struct3", "struct4s"], "thorough": ["struct3", "struct4s", "struct4", "seg13"]},
-    "C07": {"quick": ["seg13", "seg3d"], "thorough": ["seg13", "seg22", "seg3d", "seg13n"]},
+    "C03": {"quick": ["struct3", "struct4s", "struct5s"], "thorough": ["struct3", "struct4s", "struct5s", "struct4", "seg13"]},
+    "C04": {"quick": ["struct3", "struct4s", "struct5s"], "thorough": ["struct3", "struct4s", "struct5s", "struct4", "seg13"]},
+    "C05": {"quick": ["struct3", "struct4s", "struct5s"], "thorough": ["struct3", "struct4s", "struct5s", "struct4", "seg13"]},
+    "C06": {"quick": ["struct3", "struct4s", "struct5s"], "thorough": ["struct3", "struct4s", "struct5s", "struct4", "seg13"]},
+    "C07": {"quick": ["seg13", "seg3d", "seg6s"], "thorough": ["seg13", "seg22", "seg3d", "seg13n", "seg6s"]},
     "C08": {"quick": ["seg13", "seg3d", "feat13", "feat3d"], "thorough": ["seg13", "seg22", "seg3d", "seg13n", "feat13", "feat22", "feat3d"]},
     # seg13z: tracks rebuilt from the graph, IoU enabled in bulk at that point; feat13: enable / disable at any point
     "C09": {"quick": ["seg13", "seg3d", "seg13z", "feat13"], "thorough": ["seg13", "seg22", "seg3d", "seg13n", "seg13z", "feat13", "feat22"]},
     "C10": {"quick": ["featns", "feat13"], "thorough": ["featns", "feat13", "feat22"]},
-    "C11": {"quick": ["struct3", "struct4s", "struct3p", "seg13"], "thorough": ["struct3", "struct4s", "struct3p", "struct3c", "struct4", "seg13", "seg22"]},
-    "C20": {"quick": ["struct3", "struct4s", "seg13"], "thorough": ["struct3", "struct4s", "struct4", "seg13"]},
+    "C11": {"quick": ["struct3", "struct4s", "struct5s", "struct3p", "seg13", "seg6s"], "thorough": ["struct3", "struct4s", "struct5s", "struct3p", "struct3c", "struct4", "seg13", "seg22", "seg6s"]},
+    "C20": {"quick": ["struct3", "struct4s", "struct5s", "seg13", "seg6s"], "thorough": ["struct3", "struct4s", "struct5s", "struct4", "seg13"]},
 }
 
 # random sessions in which TLC evaluates the property's state invariant after every call
-SESSION_SUITES = {"C03": ("struct4", "struct3"), "C04": ("struct4", "struct3"), "C05": ("struct4", "struct3"),
-                  "C06": ("struct4", "struct3"), "C07": ("seg13",), "C08": ("seg13",), "C09": ("seg13",)}
+SESSION_SUITES = {"C03": ("struct4", "struct3", "struct5"), "C04": ("struct4", "struct3", "struct5"),
+                  "C05": ("struct4", "struct3", "struct5"), "C06": ("struct4", "struct3", "struct5"), "C07": ("seg13",), "C08": ("seg13",), "C09": ("seg13",)}
 
 NONTRIVIAL_RULE = {
     "C01": "accepted edit from a state satisfying all state invariants, followed by undo() and redo()",
